@@ -704,6 +704,45 @@ pub fn run(tier: Tier) -> i32 {
         });
     }
     rep.guard(n_groupings > 600, "fewer than 600 argument groupings");
+    // a device filled to the last word by macro calls: a call places what its body places and
+    // nothing more (a budget that charges the call itself, or the lines of the body, refuses a
+    // program whose hand expansion fits exactly)
+    let mut n_full = 0usize;
+    for (dev, words) in [("ATtiny13", 512usize), ("ATtiny2313", 1024)] {
+        for body_n in [1usize, 2, 3, 4] {
+            for nested in [false, true] {
+                for slack in [0usize, 1] {
+                    let per_call = if nested { 2 * body_n } else { body_n };
+                    let calls = (words - slack) / per_call;
+                    let rest = words - slack - calls * per_call;
+                    let body: Vec<String> = (0..body_n).map(|i| format!("ldi r{}, {}", 16 + i, i + 1)).collect();
+                    // comment and blank lines in the body place nothing
+                    let mut m = format!(".device {}\n.macro fill_q\n; a comment line\n\n{}\n// another\n.endm\n", dev, body.join("\n"));
+                    if nested {
+                        m.push_str(".macro fill2_q\nfill_q\nfill_q\n.endm\n");
+                    }
+                    let mut h = format!(".device {}\n", dev);
+                    for _ in 0..calls {
+                        m.push_str(if nested { "fill2_q\n" } else { "fill_q\n" });
+                        for _ in 0..(if nested { 2 } else { 1 }) {
+                            h.push_str(&body.join("\n"));
+                            h.push('\n');
+                        }
+                    }
+                    for _ in 0..rest {
+                        m.push_str("nop\n");
+                        h.push_str("nop\n");
+                    }
+                    let (o1, o2) = (sut::build_str(&m), sut::build_str(&h));
+                    n_full += 1;
+                    let same = matches!((&o1, &o2), (Outcome::Ok(a), Outcome::Ok(b)) if a.code == b.code && a.code.len() == (words - slack) * 2);
+                    if !same {
+                        rep.violation(&format!("C09/device-filled-by-calls/device={}/nested={}", dev, nested), || format!("{} calls of a {}-instruction macro{} and {} nop fill {} of {} words: the macro program gives {} but the hand expansion gives {}", calls, body_n, if nested { " through an outer macro that calls it twice" } else { "" }, rest, words - slack, words, o1.brief(), o2.brief()), || json!({"kind": "build_str", "source": m, "hand_expanded_program": h, "observed": o1.to_json()}));
+                    }
+                }
+            }
+        }
+    }
     // alternation: calls of two families take turns, each with the same arguments every time -
     // what one macro's expansion changes (a flag, a constant, the position) must be seen by the
     // next expansion of the other one
@@ -819,6 +858,7 @@ pub fn run(tier: Tier) -> i32 {
         "feature_use": *mac_use.lock().unwrap(),
         "repetition_programs": n_rep,
         "argument_groupings": n_groupings,
+        "device_filled_by_calls_programs": n_full,
         "alternation_programs": n_alt,
         "long_call_sequences": n_long,
         "calls_per_repetition_program": reps,
